@@ -37,9 +37,10 @@ FINDING: a grammar with an unproductive rule of empty FIRST after a rule referen
 reported conflict, more states than the canonical collection and a rejected sentence.  That part runs an independent
 textbook oracle (triples), the certified extracted canon_tb, and a generator family with unproductive rules.
 """
+import time
 from vlib import core, lr, cfg
 from gen import grammars as G
-from checks import c02_weak, c02_loop, c02_phantom
+from checks import c02_weak, c02_loop, c02_phantom, c02_count
 
 
 def gen_cases(ctx, n_grammars, n_inputs):
@@ -87,9 +88,17 @@ def run(ctx):
     # Pager-style construction has a conflict
     cert = core.run_lines([core.build_model("c02"), "lr1"], [r.impl_line for r in results], timeout=2400)
     n_lr1 = n_notlalr_like = 0
+    cnt = {k: 0 for k in ("graphs", "count_exceeds_canonical", "theorem_distinct_cores", "theorem_path_function",
+                          "observed_injection_exists_path_function_fails", "observed_count_only", "equal_counts",
+                          "python_canonical_differs_from_canon_lr1", "max_margin", "min_margin", "wall_s")}
     for r, cl, ce in zip(results, canon, cert):
         if not r.ok:
             ctx.count("grammar_rejected_" + r.err.split()[0])
+            if r.err.startswith("BUILDPANIC"):
+                # as checks/C01.py check_results: a panic inside from_yacc on a valid generated grammar is a verdict
+                ctx.violation({"what": "table construction panicked on a valid generated grammar", "grammar": r.src,
+                               "impl": r.err}, no_input=False)
+                ctx.oblige(False)
             continue
         secs = lr.sections(cl)
         head = secs[0]
@@ -111,6 +120,27 @@ def run(ctx):
         if r.nstates > nB:
             why.append("minimised automaton has %d states, canonical LR(1) has %d" % (r.nstates, nB))
             no_input = False                       # the grammar itself is the witness
+        # last clause: which argument covers THIS graph (checks/c02_count.py; the verdict is the count above)
+        t0_ev = time.time()
+        ev = c02_count.evaluate(g, r.secs, nB)
+        cnt["wall_s"] = round(cnt["wall_s"] + time.time() - t0_ev, 3)
+        if r.nstates > nB:
+            cnt["count_exceeds_canonical"] += 1
+        elif ev["distinct_cores"]:
+            cnt["theorem_distinct_cores"] += 1
+        elif ev["path_function"]:
+            cnt["theorem_path_function"] += 1
+        elif ev["hall"]:
+            cnt["observed_injection_exists_path_function_fails"] += 1
+        else:
+            cnt["observed_count_only"] += 1
+        if "canon_mismatch" in ev:
+            cnt["python_canonical_differs_from_canon_lr1"] += 1
+        if r.nstates == nB:
+            cnt["equal_counts"] += 1
+        cnt["graphs"] += 1
+        cnt["max_margin"] = max(cnt["max_margin"], nB - r.nstates)
+        cnt["min_margin"] = min(cnt["min_margin"], nB - r.nstates) if cnt["graphs"] > 1 else nB - r.nstates
         ckv = dict(x.split("=") for x in ce.split()[1:] if "=" in x)
         if confB == 0 and ckv.get("lr1check") != "1":
             # machinery, never an impl verdict: the certificate for the premise does not check
@@ -155,10 +185,19 @@ def run(ctx):
                                   "lr1": confB == 0, "inputs": len(r.inputs)})
     # the TEXTBOOK canonical collection as the reference (triples oracle + certified canon_tb), grammars with unproductive rules
     c02_phantom.run_part(ctx, results)
+    count_known_part(ctx, mexe)
     # stage 1 tie, after the property-level comparison so that counterexamples are reported first
     c02_weak.run_part(ctx, results)        # weakly_compatible / weakly_merge vs mirror vs Pager's definition
     c02_loop.run_part(ctx, results)        # pager_stategraph vs its mirror, replaying the implementation's trace
     ctx.coverage["lr1_grammars"] = n_lr1
+    ctx.coverage["states_le_canonical"] = dict(cnt, rule=(
+        "per generated grammar, on the implementation's StateGraph: the VERDICT is impl_states <= canonical_states (canon_lr1, "
+        "validated per grammar); beside it, which argument covers the graph: theorem_distinct_cores = no two states with the "
+        "same cores (C02_pager_states_le_canonical_distinct_cores applies), theorem_path_function = the named condition of "
+        "C02_pager_states_le_canonical_partial evaluated true on the product canonical automaton x graph, "
+        "observed_injection_exists = path_function fails but a matching state -> covered canonical state exists, "
+        "observed_count_only = none of these evaluated; margin = canonical - impl; the full statement "
+        "pager_states_le_canonical_stmt (theories/C02/CountSpec.v) is NOT proved"))
     ctx.coverage["rule"] = ("reduced acyclic grammars, emphasis on LR(1)-not-LALR(1) templates (and embeddings), random reduced grammars, "
                             "nullable-heavy; canonical LR(1) built by extracted canon_lr1 and validated per grammar; "
                             "non-trivial = LR(1) grammar with >= 4 states; distinct by grammar text")
@@ -168,8 +207,54 @@ def run(ctx):
                         "set = oracle input, FIRST/nullable = exact tables, gc = functional model) and the table INDUCED by its graph; "
                         "that the implementation's run is the mirror's run and that StateTable::new builds the induced table is "
                         "decided per generated grammar (replay of the recorded trace: identical graph; cell-by-cell table comparison)",
-                        "'never more states than the canonical automaton' is decided per generated grammar only",
+                        "'never more states than the canonical automaton' is decided per generated grammar only (proved: for graphs "
+                        "without two states of equal cores, and under the named condition path_function; CountSpec.v)",
                         "lr1_grammar is stated over the closure that follows Itemset::close (items without lookahead exist); it is the "
                         "textbook notion exactly on productive grammars (C02_lr1_notions_agree_productive); on grammars with an "
                         "unproductive rule the premise is decided by the textbook oracle / lr1_textbook_check and the theorems about the "
                         "construction do not apply (known finding C02-phantom-item-unproductive-rule)"]
+
+
+# ---- known finding (third session): more states than the canonical automaton on grammars with unproductive rules ----
+KNOWN_COUNT = "more states than the canonical LR(1) automaton on a grammar with unproductive rules"
+COUNT_WITNESSES = [
+    "%start S\n%%\nS: 't1' C B | A A 't5' 't5' A | 't1' B 't3';\nA: B B | A C;\nB: A B | B A;\nC: B B A | A B;\n",
+    "%start S\n%%\nS: 't1' C B 't0' 't6' | A A 't4' | 't1' B 't0' S | 't6' C;\nA: B B | A A A;\nB: A B | B A;\nC: B B;\n",
+]
+
+
+def count_known_part(ctx, mexe):
+    """The two witness grammars of notes/ext-c02count-design.md (every rule but S unproductive), in every run: implementation
+    states vs the validated canon_lr1.  impl > canonical on them is the KNOWN class (unproductive rule present, reference
+    validated); the generators of the main run only produce reduced grammars, where impl > canonical stays a VIOLATION."""
+    cases = [(G.from_text(src), []) for src in COUNT_WITNESSES]
+    results = lr.run_cases(cases)
+    canon = core.run_lines([mexe, "canon"], [r.impl_line for r in results], timeout=600)
+    hits = []
+    for r, cl in zip(results, canon):
+        if not r.ok:
+            ctx.count("count_witness_rejected_" + r.err.split()[0])
+            continue
+        head = lr.sections(cl)[0]
+        if head[:2] == ["B", "none"] or head[0] != "B":
+            ctx.count("count_witness_canon_failed")
+            continue
+        kv = dict(x.split("=") for x in head[1:])
+        nB = int(kv["n"])
+        valid = all(kv.get(k) == "1" for k in ("wf", "S", "E"))
+        g = cfg.DGram(r.secs)
+        ctx.count("count_witness_grammars")
+        if valid and r.nstates > nB and not g.all_productive():
+            hits.append((r, nB))
+            ctx.violation({"what": "minimised automaton has %d states, canonical LR(1) has %d; the grammar has unproductive rules"
+                                   % (r.nstates, nB), "grammar": r.src, "impl_states": r.nstates, "canonical_states": nB},
+                          known_key=KNOWN_COUNT)
+    if hits:
+        r, nB = hits[0]
+        for i, k in enumerate(ctx.known_hits):
+            if k.get("match") == KNOWN_COUNT:
+                k = dict(k)
+                k["note"] = "%s (%d grammars, first: `%s`: implementation %d states, canonical %d)" % (
+                    KNOWN_COUNT, len(hits), " ".join(r.src.split()), r.nstates, nB)
+                ctx.known_hits[i] = k
+    ctx.coverage["count_known_finding_witnesses"] = {"grammars": len(COUNT_WITNESSES), "reproduced": len(hits)}
